@@ -348,6 +348,11 @@ def _execute(p, s, res):
             T, A = T2, A2
     finally:
         on_bottom = term.r == term.h - 1
+        # what leaving the context must keep: everything above the cursor's row, and with keep_last_line
+        # ("the cursor is moved down one line on leaving") the cursor's row as well -- __exit__ clears from
+        # the cursor downward only (document coordinates, so a scroll on the way out does not matter)
+        doc_before = term.document()
+        keep_upto = len(term.scrollback) + term.r + (1 if cfg["keep_last_line"] else 0)
         try:
             win.__exit__(None, None, None)
         except HarnessError:
@@ -358,6 +363,12 @@ def _execute(p, s, res):
         world.probe("exit_keep_last_line_on_bottom")
     got = term.document()
     world.log.add("exit", term.r, term.c, len(term.scrollback), term.cursor_visible)
+    if not res["violation"] and got[:keep_upto] != doc_before[:keep_upto]:
+        d = gen.diff_grid(doc_before[:keep_upto], got[:keep_upto])
+        name = "history_altered_at_exit" if d and d.get("row", 10 ** 9) < len(A) else "exit_erased_above_cursor"
+        _violate(res, name, len(p["steps"]),
+                 {"diff": d, "keep_last_line": cfg["keep_last_line"], "cursor_on_bottom_row": on_bottom,
+                  "before": gen.show_grid(doc_before), "after": gen.show_grid(got)})
     if got[:len(A)] != A:
         _violate(res, "history_altered_at_exit", len(p["steps"]),
                  {"diff": gen.diff_grid(A, got[:len(A)]), "expected_history": gen.show_grid(A), "got": gen.show_grid(got)})
